@@ -69,8 +69,9 @@ def make_scratch():
 def run(cmd, cwd=None, timeout=None, env=None):
     t0 = time.time()
     try:
+        limit = isinstance(cmd, list) and len(cmd) > 1 and cmd[0] == 'cargo' and cmd[1] == 'kani'
         p = subprocess.run(cmd, cwd=cwd, env=env or ENV, stdout=subprocess.PIPE, stderr=subprocess.STDOUT,
-                           timeout=timeout, text=True, errors='replace')
+                           timeout=timeout, text=True, errors='replace', preexec_fn=_limit_memory if limit else None)
         return p.returncode, p.stdout, time.time() - t0
     except subprocess.TimeoutExpired as e:
         out = e.stdout if isinstance(e.stdout, str) else (e.stdout or b'').decode(errors='replace')
@@ -80,6 +81,26 @@ def run(cmd, cwd=None, timeout=None, env=None):
 # ------------------------------------------------------------------------------------------------
 # Injection: append-only modules and insert-only contract attributes
 # ------------------------------------------------------------------------------------------------
+def units_of_compile_errors(out, inj):
+    """Map rustc error locations in the injected text to the units that contributed it. Returns {unit: first message} or {} when an
+    error lies outside injected text (then nothing can be isolated)."""
+    offenders = {}
+    for m in re.finditer(r'^error(?:\[\w+\])?: (.*)\n\s*--> (src/[^:\n]+):(\d+):', out, flags=re.M):
+        msg, rel, line = m.group(1), m.group(2), int(m.group(3))
+        unit = None
+        if rel in inj.spans:
+            for a, b, u in inj.spans[rel]:
+                if a <= line <= b:
+                    unit = u
+        elif rel in inj.appended and line > inj.orig_lines.get(rel, 10 ** 9):
+            owners = [u for u in inj.append_owner.get(rel, []) if u]
+            unit = owners[0] if len(set(owners)) == 1 else None
+        if unit is None:
+            return {}
+        offenders.setdefault(unit, msg[:200])
+    return offenders
+
+
 class Injector:
     def __init__(self, scratch):
         self.scratch = scratch
@@ -87,10 +108,10 @@ class Injector:
         self.attrs = {}          # relpath -> [(fn name, impl, [attr lines])]
         self.new_files = {}      # relpath -> text
         self.prepended = {}      # relpath -> [line]
+        self.spans = {}          # relpath of a generated file -> [(first line, last line, unit)]
+        self.append_owner = {}   # relpath -> [unit] parallel to self.appended[relpath]
+        self.orig_lines = {}     # relpath -> number of lines before injection
         self.log = []
-
-    def append(self, rel, text):
-        self.appended.setdefault(rel, []).append(text)
 
     def contract(self, rel, fn_name, attr_lines, impl=None):
         self.attrs.setdefault(rel, []).append((fn_name, impl, attr_lines))
@@ -100,12 +121,21 @@ class Injector:
             self.prepended[rel].append(line)
 
     def new_file(self, rel, text):
-        self.new_files[rel] = self.new_files.get(rel, '') + text
+        # remember which unit contributed which lines of the generated file (per-unit isolation of compile errors)
+        before = self.new_files.get(rel, '')
+        start = before.count('\n') + 1
+        self.new_files[rel] = before + text
+        self.spans.setdefault(rel, []).append((start, self.new_files[rel].count('\n') + 1, getattr(self, 'current_unit', None)))
+
+    def append(self, rel, text):
+        self.appended.setdefault(rel, []).append(text)
+        self.append_owner.setdefault(rel, []).append(getattr(self, 'current_unit', None))
 
     def apply(self):
         for rel in sorted(set(self.appended) | set(self.attrs) | set(self.prepended)):
             path = os.path.join(self.scratch, rel)
             orig = open(path).read()
+            self.orig_lines[rel] = orig.count('\n') + 1
             src = Source(path, orig)
             inserts = []  # (offset, text)
             for fn_name, impl, lines in self.attrs.get(rel, []):
@@ -159,7 +189,17 @@ def kani_cmd(harnesses, jobs=16, harness_timeout=600):
 
 
 UNDECIDED_MARKERS = ('unwinding assertion', 'is not currently supported by Kani', 'not currently supported',
-                     'recursion unwinding', 'CBMC timed out', 'timed out', 'out of memory', 'unsupported')
+                     'recursion unwinding', 'CBMC timed out', 'timed out', 'out of memory', 'unsupported', 'std::bad_alloc',
+                     'CBMC failed', 'terminated by signal', 'Killed')
+MEM_LIMIT_BYTES = 20 * 1024 ** 3      # address-space limit per verifier process: a harness that needs more is undecided, not a danger to the machine
+
+
+def _limit_memory():
+    try:
+        import resource
+        resource.setrlimit(resource.RLIMIT_AS, (MEM_LIMIT_BYTES, MEM_LIMIT_BYTES))
+    except Exception:
+        pass
 
 
 def parse_kani(out, harnesses):
@@ -226,6 +266,9 @@ def parse_kani(out, harnesses):
             joined = ' | '.join(r['failed']) + ' ' + r.get('raw', '')
             if any(mk in joined for mk in UNDECIDED_MARKERS) and not any(
                     ('assertion failed' in f or 'OBL' in f or '|r' in f or 'result' in f) for f in r['failed']):
+                r['status'] = 'UNDECIDED'
+            elif not r['failed'] and not r.get('checks_failed'):
+                # the back end stopped without naming a failed check (crash, kill, resource limit): not a verdict
                 r['status'] = 'UNDECIDED'
     return res
 
